@@ -294,6 +294,7 @@ def snapshot_table(c, tname, wr, hints):
         else:
             pos = {rid: rp for rp, rid in enumerate(t["rowids"])}
         ents = []
+        ids1 = []
         na = len(allx)
         ni = len(ident)
         for row in cur:
@@ -314,7 +315,20 @@ def snapshot_table(c, tname, wr, hints):
             else:
                 rp = pos.get(str(row[2 * na]), -1)
             ents.append([rp, keyvals])
+            ids1.append(tuple(row[2 * na:2 * na + ni]))
         ix["entries"] = ents
+        # SQLite keeps an integer in a REAL column as an integer inside index records; two
+        # such integers beyond 2^53 that read back as the same real are ordered by their
+        # integer value in the index and by rowid in ORDER BY. Where SQLite's two answers
+        # differ there is no single expected order: no oracle for this index in this snapshot.
+        try:
+            sql2 = "SELECT %s FROM %s INDEXED BY %s %s ORDER BY %s" % (", ".join(ident), qi(tname), qi(ix["name"]), where, ", ".join(order))
+            ids2 = [tuple(r) for r in c.execute(sql2)]
+            if ids2 != ids1:
+                ix["entries"] = None
+                ix["entries_err"] = "SQLite's index order differs from its own ORDER BY order"
+        except sqlite3.Error:
+            pass
     return t
 
 
